@@ -1,0 +1,11 @@
+//go:build verif
+
+// Contracts for package filepathext (see /repo/zz_contracts_verif.go).
+package filepathext
+
+//@ func SmartJoin
+//@   trusted
+//@   pure
+//@ func IsAbs
+//@   trusted
+//@   pure
